@@ -110,3 +110,17 @@ Theorem C08_reached_histories_get_a_generation : forall Hb matches C cdig ser h0
   exists doc, In (lh_root h, doc) (o_written o).
 Proof. exact visited_histories_write. Qed.
 Print Assumptions C08_reached_histories_get_a_generation.
+
+(* ... and ONLY those: every generation a folder-mode run writes belongs to a loaded history whose folder the traversal
+   reaches (a history gets a new list only from entries at or below its folder, or from the root folder of a child
+   history -- and the traversal reaches a path only through folders it reaches: `ev_ancestors_dirs`).  With the theorem
+   above: the histories in scope of a run are EXACTLY the loaded histories whose folders are not cut off by an ignore
+   pattern. *)
+Theorem C08_only_reached_histories_get_a_generation : forall Hb matches C cdig ser h0 kids hs req no_dh ip ifl,
+  wf_tree C (Dir h0 kids) -> load C cdig (Dir h0 kids) = inl hs ->
+  let spec := set_patterns (latest_patterns (lh_gens (root_hist hs))) ip (pattern_file_lines ifl) in
+  let evs := events matches C spec [] (Dir h0 kids) in
+  forall k doc, In (k, doc) (o_written (snd (create_folder Hb matches C cdig ser (Dir h0 kids) req no_dh false ip ifl))) ->
+    (exists h, In h hs /\ lh_root h = k) /\ In k (dirs_of evs).
+Proof. exact written_histories_are_reached. Qed.
+Print Assumptions C08_only_reached_histories_get_a_generation.
